@@ -49,6 +49,9 @@ fn snapshot(reader: &str, s: u8) -> Vec<u8> {
     let mut c = zoo::config_space(reader);
     match reader {
         "9p" => {
+            // the tag's length changes with the snapshot as well (2 + s of the 10 bytes)
+            let len = std::cmp::min(2 + s as usize, c.len() - 2);
+            c[0..2].copy_from_slice(&(len as u16).to_le_bytes());
             for b in c.iter_mut().skip(2) {
                 *b = b'a' + s;
             }
@@ -76,7 +79,14 @@ fn use_driver<T: Transport + 'static>(reader: &str, t: T) -> Result<Vec<u8>, Str
             v
         }
         "netraw" => VirtIONetRaw::<LedgerHal, T, 4>::new(t).map_err(e)?.mac_address().to_vec(),
-        "9p" => VirtIO9p::<LedgerHal, T>::new(t).map_err(e)?.mount_tag().bytes().map(|b| b - b'a').collect(),
+        "9p" => {
+            // the length is a field of its own: part 0 is the snapshot the length belongs to
+            let d = VirtIO9p::<LedgerHal, T>::new(t).map_err(e)?;
+            let tag = d.mount_tag();
+            let mut v = vec![(tag.len() as u8).wrapping_sub(2)];
+            v.extend(tag.bytes().map(|b| b.wrapping_sub(b'a')));
+            v
+        }
         _ => panic!("reader"),
     })
 }
